@@ -769,6 +769,11 @@ class C10:
             # a stream record whose field count (a decimal string of the file) makes `entry_idx + count * 2` overflow
             rec = b"\x01" + bs(b"st") + bytes([7]) + bs(R.MARKER) + bs(b"1-1") + bs(cnt) + bs(b"f") + bs(b"v") + bs(b"g") + bs(b"w")
             one("stream-field-count-" + cnt.decode(), hdr + b"\xfe\x00" + rec + b"\xff" + b"\0" * 8, "handmade")
+        for declared, cnt in ((b"\x80\xff\xff\xff\xff", b"1000000000"), (b"\x80\x7f\xff\xff\xff", b"900000000"), (b"\x80\x10\x00\x00\x00", b"100000000")):
+            # a stream record that declares billions of elements and an entry with a huge pair count that still passes the
+            # "enough elements left" guard: nothing may be sized by either number
+            rec = b"\x01" + bs(b"st") + declared + bs(R.MARKER) + bs(b"1-1") + bs(cnt) + bs(b"f") + bs(b"v")
+            one("stream-pairs-sized-by-count-" + cnt.decode(), hdr + b"\xfe\x00" + rec + b"\xff" + b"\0" * 8, "handmade")
         for name, f in [("witness-4GiB", hdr + b"\xfa\x80\xff\xff\xff\xff"), ("alloc-256MiB", hdr + b"\xfa\x90\x00\x00\x00"), ("alloc-100MiB-key", hdr + b"\x00\x86\x40\x00\x00"),
                         ("alloc-65MiB-member", hdr + b"\x03\x01z\x01\x84\x10\x00\x00")]:
             one(name, f, "handmade")
